@@ -19,6 +19,10 @@ struct Model {
     hit: Option<u64>,
 }
 
+thread_local! {
+    static SHIFTS: std::cell::Cell<u64> = const { std::cell::Cell::new(0) };
+}
+
 impl Model {
     fn new() -> Model {
         Model { low: 0, range: 0xFFFF_FFFF, lit: [[0x400; 0x300]; 8], is_match: [0x400; 4], hit: None }
@@ -30,6 +34,10 @@ impl Model {
             self.hit = Some(self.low);
         }
         self.low = (self.low << 8) & 0xFFFF_FFFF;
+        SHIFTS.with(|c| c.set(c.get() + 1));
+    }
+    fn shift_count(&self) -> u64 {
+        SHIFTS.with(|c| c.get())
     }
     #[inline]
     fn bit(&mut self, ctx: usize, idx: usize, bit: bool, is_match: bool) {
@@ -57,6 +65,62 @@ impl Model {
             self.bit(ctx, r, bit, false);
             r = (r << 1) ^ (bit as usize);
         }
+    }
+}
+
+/// A plaintext of roughly `about` random bytes whose literal-only encoding WITHOUT
+/// end marker is exactly `target` bytes long (range-coder body: one byte per shift
+/// plus the five flush bytes). The last bytes are re-chosen until the length fits.
+pub fn plain_with_body_len(seed: u64, target: u64) -> Option<Vec<u8>> {
+    let mut x = crate::prng::Xoshiro::new(seed);
+    let mut m = Model::new();
+    let mut shifts = 0u64;
+    let mut plain: Vec<u8> = Vec::new();
+    let mut prev = 0u8;
+    if target < 6 {
+        return None;
+    }
+    loop {
+        // body length if we stopped now
+        let now = shifts + 5;
+        if now == target && !plain.is_empty() {
+            return Some(plain);
+        }
+        if now > target {
+            return None;
+        }
+        if target - now > 6 {
+            // far from the target: any byte will do
+            let b = x.next() as u8;
+            let before = m.shift_count();
+            m.byte(plain.len(), prev, b);
+            shifts += m.shift_count() - before;
+            plain.push(b);
+            prev = b;
+            continue;
+        }
+        // try candidate bytes: any that does not overshoot; prefer an exact hit
+        let mut chosen: Option<(u8, Model, u64)> = None;
+        for _ in 0..24 {
+            let b = x.next() as u8;
+            let mut m2 = Model { low: m.low, range: m.range, lit: m.lit, is_match: m.is_match, hit: None };
+            let before = m2.shift_count();
+            m2.byte(plain.len(), prev, b);
+            let add = m2.shift_count() - before;
+            let after = shifts + add + 5;
+            if after == target {
+                chosen = Some((b, m2, add));
+                break;
+            }
+            if after < target && chosen.is_none() {
+                chosen = Some((b, m2, add));
+            }
+        }
+        let (b, m2, add) = chosen?;
+        m = m2;
+        shifts += add;
+        plain.push(b);
+        prev = b;
     }
 }
 
